@@ -67,6 +67,10 @@ impl FromStr for Signature {
     type Err = anyhow::Error;
 
     fn from_str(s: &str) -> Result<Self, Self::Err> {
+        // NOTE: Accept the `0x` prefix that the `Display` implementation emits,
+        // so that printed signatures can be parsed back.
+        let s = s.strip_prefix("0x").unwrap_or(s);
+
         let mut signature = [0; 65];
         hex::decode_to_slice(s, &mut signature)?;
 
@@ -81,8 +85,7 @@ impl FromStr for Signature {
             ecdsa::Signature::from_scalars(
                 <[u8; 32]>::try_from(&signature[0..32])?,
                 <[u8; 32]>::try_from(&signature[32..64])?,
-            )
-            .unwrap(),
+            )?,
             y_parity.try_into()?,
         ))
     }
